@@ -315,7 +315,8 @@ fn inject_walk<'a, T: WIter + IteratingInstrumenter<'a> + Inject<'a> + InjectAt<
         if let Some(p) = targets.iter().position(|t| *t == (m, f, i)) {
             // the way the probe is injected varies with the target (the same calls are made through both kinds of iterator)
             let c = Operator::I32Const { value: 777000 + p as i32 };
-            match p % 6 {
+            // (derived from the target itself: with at most a handful of targets `p` alone never reached the last styles)
+            match (p + (f as usize) * 3 + i * 5 + (m as usize)) % 6 {
                 0 => { it.before(); it.inject(c); it.inject(Operator::Drop); }
                 1 => { it.after(); it.inject(c); it.inject(Operator::Drop); }
                 2 => { it.func_entry(); it.inject(c); it.inject(Operator::Drop); }
@@ -368,7 +369,7 @@ fn gen26(seed: u64, idx: u64) -> In26 {
     let k = if r.chance(1, 3) { Some(r.below(exp.len() as u64 + 3)) } else { None };
     let probe = r.chance(1, 2);
     let decorate = r.chance(1, 2);
-    let ntargets = r.below(5) as usize;
+    let ntargets = r.below(7) as usize;
     let mut targets: Vec<(u32, u32, usize)> = vec![];
     for _ in 0..ntargets { if !exp.is_empty() { let t = *r.pick(&exp); if !targets.contains(&t) { targets.push(t); } } }
     In26 { ms, skips, present, styles, k, probe, decorate, targets }
